@@ -26,6 +26,8 @@ def _ints(a):
 
 
 def _record(item):
+    """one simplification, then the rest of the pipeline TWICE on the same (reduced, removed) objects with two filter
+    configurations - a configuration sweep that re-uses a simplification is part of the property's quantifier."""
     import importlib
     import kneeliverse.postprocessing as pp
     import kneeliverse.clustering as clustering
@@ -34,62 +36,64 @@ def _record(item):
     cid, P, cfg = item
     P = np.asarray(P, float)
     n = len(P)
-    events = []
-    case = {"id": cid, "n": n, "reduced": [0, n - 1], "hred": [0, 0], "horig": _exact_ranks(P[:, 1]), "events": events}
-    meta = {"points": P.tolist(), "cfg": cfg}
     B = 4000 * n + 40000
-
-    def stage(name, fn, args):
-        out, val, _ = monitor.call(fn, args, budget=B, wall=60)
-        ev = {"stage": name, "outcome": out, "out": [], "same": []}
-        if out != "returned":
-            meta["error"] = "%s: %s" % (name, val)
-        events.append(ev)
-        return out == "returned", val, ev
-
-    # 1. simplify
+    out = []
     sp = dict(cfg["simplifier"])
     ev0 = simpl.call(P, sp, wall=60)
-    e = {"stage": "simplify", "outcome": ev0["outcome"], "out": ev0.get("reduced", []), "same": []}
-    events.append(e)
-    if ev0["outcome"] != "returned" or ev0.get("removed") is None:
-        meta["error"] = "simplify: %s" % ev0.get("error")
-        return case, meta
-    reduced = np.array(ev0["reduced"])
-    removed = np.array(ev0["removed"])
-    S = ev0["reduced"]
-    if not (len(S) >= 2 and S[0] == 0 and S[-1] == n - 1 and all(S[j] < S[j + 1] for j in range(len(S) - 1))):
-        return case, meta
-    PR = P[reduced]
-    case["reduced"] = S
-    case["hred"] = _exact_ranks(PR[:, 1])
-    det = importlib.import_module("kneeliverse." + cfg["detector"])
-    ok, knees, ev = stage("detect", det.multi_knee, (PR, cfg["t1"], cfg["t2"]))
-    if not ok:
-        return case, meta
-    ev["out"] = _ints(knees)
-    ok, k1, ev = stage("worst", pp.filter_worst_knees, (PR, knees))
-    if not ok:
-        return case, meta
-    ev["out"] = _ints(k1)
-    ok, k2, ev = stage("corner", pp.filter_corner_knees, (PR, k1, cfg["c"]))
-    if not ok:
-        return case, meta
-    ev["out"] = _ints(k2)
-    ok, k3, ev = stage("cluster", pp.filter_clusters, (PR, k2, getattr(clustering, cfg["linkage"]), cfg["t"], kr.ClusterRanking(cfg["mode"])))
-    if not ok:
-        return case, meta
-    ev["out"] = _ints(k3)
-    ok, k4, ev = stage("map", rdp.mapping, (k3, reduced, removed))
-    if not ok:
-        return case, meta
-    ev["out"] = _ints(k4)
-    same = []
-    for j, orig in enumerate(ev["out"]):
-        p = ev0 and _ints(k3)[j]
-        same.append(bool(0 <= orig < n and 0 <= p < len(PR) and P[orig].tobytes() == PR[p].tobytes()))
-    ev["same"] = same
-    return case, meta
+    simp_event = {"stage": "simplify", "outcome": ev0["outcome"], "out": ev0.get("reduced", []), "same": []}
+    cfgs = [cfg, dict(cfg, linkage=cfg["linkage2"], mode=cfg["mode2"], c=cfg["c2"])]
+    good = ev0["outcome"] == "returned" and ev0.get("removed") is not None
+    if good:
+        reduced = np.array(ev0["reduced"])
+        removed = np.array(ev0["removed"])
+        S = ev0["reduced"]
+        good = len(S) >= 2 and S[0] == 0 and S[-1] == n - 1 and all(S[j] < S[j + 1] for j in range(len(S) - 1))
+    for ki, cf in enumerate(cfgs):
+        events = [dict(simp_event)]
+        case = {"id": "%s.%d" % (cid, ki), "n": n, "reduced": [0, n - 1], "hred": [0, 0], "horig": _exact_ranks(P[:, 1]), "events": events}
+        meta = {"points": P.tolist(), "cfg": cfg, "which": ki}
+        out.append((case, meta))
+        if not good:
+            if ev0["outcome"] != "returned":
+                meta["error"] = "simplify: %s" % ev0.get("error")
+            continue
+        PR = P[reduced]
+        case["reduced"] = S
+        case["hred"] = _exact_ranks(PR[:, 1])
+
+        def stage(name, fn, args):
+            o, val, _ = monitor.call(fn, args, budget=B, wall=60)
+            ev = {"stage": name, "outcome": o, "out": [], "same": []}
+            if o != "returned":
+                meta["error"] = "%s: %s" % (name, val)
+            events.append(ev)
+            return o == "returned", val, ev
+
+        det = importlib.import_module("kneeliverse." + cf["detector"])
+        ok, knees, ev = stage("detect", det.multi_knee, (PR, cf["t1"], cf["t2"]))
+        if not ok:
+            continue
+        ev["out"] = _ints(knees)
+        ok, k1, ev = stage("worst", pp.filter_worst_knees, (PR, knees))
+        if not ok:
+            continue
+        ev["out"] = _ints(k1)
+        ok, k2, ev = stage("corner", pp.filter_corner_knees, (PR, k1, cf["c"]))
+        if not ok:
+            continue
+        ev["out"] = _ints(k2)
+        ok, k3, ev = stage("cluster", pp.filter_clusters, (PR, k2, getattr(clustering, cf["linkage"]), cf["t"], kr.ClusterRanking(cf["mode"])))
+        if not ok:
+            continue
+        ev["out"] = _ints(k3)
+        ok, k4, ev = stage("map", rdp.mapping, (k3, reduced, removed))
+        if not ok:
+            continue
+        ev["out"] = _ints(k4)
+        k3i = _ints(k3)
+        ev["same"] = [bool(0 <= orig < n and 0 <= k3i[j] < len(PR) and P[orig].tobytes() == PR[k3i[j]].tobytes())
+                      for j, orig in enumerate(ev["out"])]
+    return out
 
 
 def _simplifier_cfg(rng, f, n):
@@ -154,7 +158,8 @@ def inputs(ctx):
         for s, d, l, m in combos:
             cfg = {"simplifier": _simplifier_cfg(rng, s, n), "detector": d,
                    "t1": rng.choice([0.001, 0.01, 0.0]), "t2": rng.choice([4, 5]) if d in ("menger", "lmethod") else rng.choice([3, 4]),
-                   "c": rng.choice([0.33, 0.1, 0.5]), "linkage": l, "t": rng.choice([0.01, 0.05, 0.1]), "mode": m}
+                   "c": rng.choice([0.33, 0.1, 0.5]), "linkage": l, "t": rng.choice([0.01, 0.05, 0.1]), "mode": m,
+                   "linkage2": rng.choice(LINKAGES), "mode2": rng.choice(MODES), "c2": rng.choice([0.33, 0.2])}
             items.append(("p%d" % k, P.tolist(), cfg))
             k += 1
     return items
@@ -194,7 +199,7 @@ def run(ctx):
     ctx.mc("Pipeline", "MC_Pipeline", need_actions=("Detect", "FilterWorst", "FilterCorner", "FilterCluster", "Map"))
     ctx.mc("Pipeline", "MC_Pipeline_dup", expect="MappedOk")
     items = inputs(ctx)
-    rec = par.pmap(_record, items, chunksize=2)
+    rec = [cm for lst in par.pmap(_record, items, chunksize=2) for cm in lst]
     cases = [c for c, _ in rec]
     meta = {c["id"]: m for c, m in rec}
     rej = ctx.trace("Trace_Pipeline", cases, selftest=_selftests(), chunk=200)
@@ -206,7 +211,7 @@ def run(ctx):
     ctx.extra["pipelines_reaching_map"] = sum(1 for c in cases if c["events"] and c["events"][-1]["stage"] == "map")
     for cid, vs in rej.items():
         m = meta[cid]
-        ctx.violation(vs[0][0], {"points": m["points"], "cfg": m["cfg"]}, {"verdict": vs[0], "error": m.get("error")},
+        ctx.violation(vs[0][0], {"points": m["points"], "cfg": m["cfg"]}, {"verdict": vs[0], "error": m.get("error"), "pass": m["which"]},
                       match="%s:%s:%s" % (vs[0][0], m["cfg"]["detector"], m["cfg"]["mode"]))
     sm = max(cases, key=lambda c: len(c["events"][-1]["out"]) if c["events"][-1]["stage"] == "map" and c["n"] < 80 else -1)
     ctx.sample({"binding": "T", "cfg": meta[sm["id"]]["cfg"], "n": sm["n"], "events": sm["events"]})
@@ -214,7 +219,7 @@ def run(ctx):
 
 def replay(ctx, obj):
     c = obj["case"]
-    case, m = _record(("replay", c["points"], c["cfg"]))
-    rej = ctx.trace("Trace_Pipeline", [case])
+    lst = _record(("replay", c["points"], c["cfg"]))
+    rej = ctx.trace("Trace_Pipeline", [case for case, _ in lst])
     for cid, vs in rej.items():
-        ctx.violation(vs[0][0], c, {"verdict": vs[0], "error": m.get("error")})
+        ctx.violation(vs[0][0], c, {"verdict": vs[0]})
